@@ -5,6 +5,15 @@ lean/Ptk/Gen/C02Patterns.lean.  The hand-written scanners in
 lean/Ptk/Model/C02.lean are valid for exactly these patterns; the model file
 pins every string with `example : Gen.C02.xxx = "..." := by decide`, so a
 changed pattern in /repo breaks the build at the pin.
+
+Second file, lean/Ptk/Gen/C02Chars.lean: the CHARACTER CLASSES of the compiled
+regex objects themselves, obtained by running `_FIND_WORD_RE` / `_FIND_BIG_WORD_RE`
+over the string of all 0x110000 code points (every match is a maximal range of
+consecutive code points of one class): the ranges of class 1 (`[a-zA-Z0-9_]`),
+of class 0 of the word regex (matched by neither alternative) and of class 0
+of the WORD regex.  `Ptk.Props.C02Gen` re-decides on every run that the
+model's `isWordChar` is exactly the first table and that both blank classes are
+exactly the regex-whitespace table of Gen/PyChars that the driver instantiates `sp` with.
 """
 from __future__ import annotations
 
@@ -31,3 +40,84 @@ def generate() -> None:
         body += f"def {lean_name}Flags : Nat := {int(rx.flags)}\n\n"
     body += "end Ptk.Gen.C02\n"
     G.write("C02Patterns.lean", body)
+    G.write("C02Chars.lean", chars_body(D))
+
+
+def _complement(rs):
+    out, prev = [], 0
+    for a, b in sorted(rs):
+        if a > prev:
+            out.append((prev, a - 1))
+        prev = max(prev, b + 1)
+    if prev <= 0x10FFFF:
+        out.append((prev, 0x10FFFF))
+    return out
+
+
+def chars_body(D) -> str:
+    allc = "".join(map(chr, range(0x110000)))
+    # every match over the string of all code points is a maximal range of one class
+    word_runs = [(m.start(1), m.end(1) - 1) for m in D._FIND_WORD_RE.finditer(allc)]
+    # class 1 (first alternative): the run can be continued by the word character "a"
+    word_cls = [(a, b) for a, b in word_runs if D._FIND_WORD_RE.fullmatch(chr(a) + "a")]
+    blank_cls = _complement(word_runs)
+    big_runs = [(m.start(1), m.end(1) - 1) for m in D._FIND_BIG_WORD_RE.finditer(allc)]
+    big_blank = _complement(big_runs)
+
+    def lst(rs):
+        return "[" + ", ".join(f"({a}, {b})" for a, b in rs) + "]"
+
+    body = "namespace Ptk.Gen.C02\n\n"
+    body += "/-- inclusive code point ranges of class 1 of `_FIND_WORD_RE` (first alternative), as matched by `re` -/\n"
+    body += f"def wordClassRanges : List (Nat × Nat) := {lst(word_cls)}\n\n"
+    body += "/-- code points matched by neither alternative of `_FIND_WORD_RE` (class 0) -/\n"
+    body += f"def blankClassRanges : List (Nat × Nat) := {lst(blank_cls)}\n\n"
+    body += "/-- code points not matched by `_FIND_BIG_WORD_RE` (class 0 of the WORD regex) -/\n"
+    body += f"def bigBlankClassRanges : List (Nat × Nat) := {lst(big_blank)}\n\n"
+    # literals that the model mirrors, read from the source of the methods themselves
+    pairs = bracket_pairs(D)
+    body += "/-- the bracket pairs `find_matching_bracket_position` loops over (string literals of its `for`) -/\n"
+    body += ("def bracketPairs : List (Char × Char) := ["
+             + ", ".join(f"({G.lchar(a)}, {G.lchar(b)})" for a, b in pairs) + "]\n\n")
+    alpha = boundary_alphabet(D)
+    body += ("/-- code points of the local `alphabet` of `find_boundaries_of_current_word` "
+             "(`string.ascii_letters + \"0123456789_\"`), sorted -/\n")
+    body += "def boundaryAlphabet : List Nat := [" + ", ".join(str(o) for o in alpha) + "]\n\n"
+    body += "end Ptk.Gen.C02\n"
+    return body
+
+
+def _method_ast(D, name):
+    import ast
+    import inspect
+    import textwrap
+
+    return ast.parse(textwrap.dedent(inspect.getsource(getattr(D.Document, name))))
+
+
+def bracket_pairs(D):
+    """the 2-character string constants of the `for pair in ...` loop"""
+    import ast
+
+    for node in ast.walk(_method_ast(D, "find_matching_bracket_position")):
+        if isinstance(node, ast.For) and isinstance(node.iter, (ast.Tuple, ast.List)):
+            vals = [e.value for e in node.iter.elts if isinstance(e, ast.Constant) and isinstance(e.value, str)]
+            if vals and len(vals) == len(node.iter.elts) and all(len(v) == 2 for v in vals):
+                return [(v[0], v[1]) for v in vals]
+    return []
+
+
+def boundary_alphabet(D):
+    """value of the assignment `alphabet = ...` inside find_boundaries_of_current_word"""
+    import ast
+    import string
+
+    for node in ast.walk(_method_ast(D, "find_boundaries_of_current_word")):
+        if (isinstance(node, ast.Assign) and len(node.targets) == 1
+                and isinstance(node.targets[0], ast.Name) and node.targets[0].id == "alphabet"):
+            try:
+                val = eval(compile(ast.Expression(node.value), "<alphabet>", "eval"), {"string": string})
+            except Exception:
+                return []
+            return sorted({ord(c) for c in val})
+    return []
